@@ -69,6 +69,8 @@ func init() {
 		{Fn: "AllocPacketID", Lean: "AllocPacketID"},
 		{Fn: "stripEthernetHeader", Lean: "stripEthernetHeader"},
 		{Fn: "ReadAndParse", Lean: "ReadAndParse"},
+		{Fn: "ParseTCPFirstBytes", Lean: "ParseTCPFirstBytes"},
+		{Fn: "ParseUDPFirstBytes", Lean: "ParseUDPFirstBytes"},
 		{Fn: "FrameParser.IsTTLExceeded", Lean: "IsTTLExceeded"},
 		{Fn: "FrameParser.IsDestinationUnreachable", Lean: "IsDestinationUnreachable"},
 	}})
